@@ -114,9 +114,3 @@ func TestScenarioReplayChild(t *testing.T) {
 	fmt.Printf("TRACEHASH %s\n", n.TraceHash())
 }
 
-func trunc(s string, n int) string {
-	if len(s) > n {
-		return s[:n]
-	}
-	return s
-}
